@@ -63,7 +63,8 @@ type c20Stub struct {
 	curPut   uint32
 	lastLook uint32 // height returned to Run's latest Height() call
 	putAdv   int    // chain advances from other sources between Put's height reading and its locked region
-	skipGate bool   // the next Height() from Run is the log check after a failed AddItem
+	skipGate int    // Height() calls from Run still to come that belong to the log statement after a failed AddItem
+	failed   uint32 // index of the block of that AddItem
 	arrive   chan int
 	release  chan int
 }
